@@ -61,10 +61,11 @@ func init() {
 	runner.Register(&runner.Prop{
 		ID: "C01",
 		Rule: "case = one input byte string x {DecodeBox, DecodeBoxSR, DecodeFile, DecodeFileSR} x {Encode, EncodeSW} (files: box-tree mode when fragmented, plain child loop when progressive), each combination on a fresh decode. " +
-			"Inputs: every corpus seed unmutated (repo testdata files <= 256 KiB and their mdat-shrunk variants, every box of every file cut out by the reference walker, hand-built instances of every registered type no file contains and of every version/flag shape, upstream fuzz seeds), " +
+			"Inputs: every corpus seed unmutated (repo testdata files <= 256 KiB and their mdat-shrunk variants, every box of every file cut out by the reference walker, hand-built instances of every registered type no file contains and of every version/flag shape (hdlr name fields that are more than one C string, alone and inside mdia/trak/moov/meta), " +
+			"hand-built whole files (corpus.BuiltFiles: those handler names in progressive and fragmented files; encrypted fragmented files over tenc IV size {16,8,constant} x seig IV size x sample-group boxes in the traf {none, sgpd only, sgpd + foreign sbgp, sbgp+sgpd, sbgp only, unsupported mappings} x senc with/without sub-sample table x saiz/saio), upstream fuzz seeds), " +
 			"then generated inputs (quick 120 000, thorough 3 000 000): 32% 1..3 stacked size-consistent structure-aware mutations (mut.Gentle), 20% single/multi bit flips in a box payload, 18% boundary/random values in aligned fields, 8% N1 largesize headers, 5% N2 non-adjacent trak children, 5% N3 surplus bytes after a leaf, 7% nesting 1..6 deep in typed/generic containers, 5% box sequences; " +
 			"additionally DecodeAVCDecConfRec / DecodeHEVCDecConfRec / DecodeAV1CodecConfRec -> Encode on every avcC/hvcC/av1C payload found in an accepted input. " +
-			"Oracle: y = E(P(x)) must equal x except in positions covered by /verif/c01_dontcare.json (masks looked up by innermost box type via the reference walker, version byte, payload offset; normalisations N1/N2/N3 recognised on the two walker trees); if y != x then P(y) must succeed, be structurally equal to P(x) (reflective comparison incl. unexported fields, nil == empty; position fields ignored only if a size/order normalisation applied) and E(P(y)) == y. A re-encode error on a decoded structure is a violation. " +
+			"Oracle: y = E(P(x)) must equal x except in positions covered by /verif/c01_dontcare.json (masks looked up by innermost box type via the reference walker, version byte, payload offset; normalisations N1/N2/N3 recognised on the two walker trees; N3 is never granted to a leaf whose last syntax element extends to the end of the box by definition (hdlr, sdtp, mime, the cue text boxes, emsg, av1C, data, cdat: lost-bytes/<type>/<shape>), to an unmutated corpus seed, or to a senc without sub-sample table cut below 8 + sample_count x Per_Sample_IV_Size of the only track's tenc when no sbgp+sgpd pair in the traf can override it: lost-bytes/senc/iv-table-cut); if y != x then P(y) must succeed, be structurally equal to P(x) (reflective comparison incl. unexported fields, nil == empty; position fields ignored only if a size/order normalisation applied) and E(P(y)) == y. A re-encode error on a decoded structure is a violation. " +
 			"non-trivial = accepted by at least one path and containing at least one registered non-container box other than free/skip; distinct by input hash. evaluations = (path, encoder) round trips performed.",
 		Assumptions: []string{
 			"the committed don't-care list /verif/c01_dontcare.json (every entry names the ISO field it covers)",
@@ -227,6 +228,21 @@ func accountTypes(c *runner.Ctx, x []byte) bool {
 		if !n.Container && n.Type != "free" && n.Type != "skip" {
 			non = true
 		}
+		if n.Type == "hdlr" {
+			c.Seen("hdlr_name_field", hdlrNameShape(n.Payload(x)))
+		}
+		if n.Type == "senc" && n.Parent != nil {
+			grp := ""
+			for _, sib := range n.Parent.Children {
+				if sib.Type == "sbgp" || sib.Type == "sgpd" {
+					grp += "+" + sib.Type
+				}
+			}
+			if len(grp) > 20 {
+				grp = "+many"
+			}
+			c.Seen("senc_sample_group_siblings", "senc"+grp)
+		}
 		if shapeTypes[n.Type] {
 			v, fl := n.FullBox(x)
 			vs := fmt.Sprintf("v%d", v)
@@ -240,6 +256,24 @@ func accountTypes(c *runner.Ctx, x []byte) bool {
 		}
 	}
 	return non
+}
+
+// hdlrNameShape classifies the name field (everything after the 24 fixed bytes).
+func hdlrNameShape(p []byte) string {
+	if len(p) <= 24 {
+		return "absent"
+	}
+	f := p[24:]
+	inner := bytes.IndexByte(f[:len(f)-1], 0) >= 0
+	switch {
+	case inner && f[len(f)-1] == 0:
+		return "inner-nul,terminated"
+	case inner:
+		return "inner-nul,unterminated"
+	case f[len(f)-1] == 0:
+		return "one-string"
+	}
+	return "unterminated"
 }
 
 var shapeTypes = map[string]bool{"mvhd": true, "tkhd": true, "mdhd": true, "mehd": true, "elst": true, "tfdt": true, "sidx": true, "emsg": true, "prft": true,
@@ -318,6 +352,9 @@ func roundTrip(c *runner.Ctx, in work.Input, path, encoder string, x []byte, d *
 	s.forest(nx, ny, nil)
 	for k, v := range s.explained {
 		c.Count("explained/"+k, v)
+	}
+	for _, t := range s.n3Types {
+		c.Seen("N3_leaf_type", safeType(t))
 	}
 	if sweepOut != nil {
 		sweepRecord(s, in)
